@@ -115,7 +115,7 @@ def arg(draw, t):
     if t == 'index':
         if draw(st.integers(0, 2)):
             return draw(arg('int'))
-        return ['slice', draw(arg('optint')), draw(arg('optint')), draw(st.sampled_from([['none'], ['int', 1], ['int', 2], ['int', -1], ['int', -3], ['int', 0], ['int', 2 ** 63]]))]
+        return ['slice', draw(arg('optint')), draw(arg('optint')), draw(st.sampled_from([['none'], ['int', 1], ['int', 2], ['int', -1], ['int', -3], ['int', 0], ['int', 2 ** 63], ['int', -2 ** 63], ['int', 2 ** 63 - 1], ['int', -2 ** 64]]))]
     if t == 'posspec':
         k = draw(st.integers(0, 4))
         if k == 0:
@@ -218,6 +218,7 @@ class W:
         self.raised = 0
         self.out_of_domain = 0
         self.excluded_known = 0
+        self.excluded_setitem = 0
 
     def make_pool(self, sp):
         bs = self.bs
@@ -304,6 +305,12 @@ class W:
             # C extension (3.11); excluded by construction so that the search continues
             self.excluded_known += 1
             return
+        if (area == 'mut' and name == 'op:setitem' and len(rargs) == 2 and isinstance(rargs[0], slice) and isinstance(rargs[0].step, int) and abs(rargs[0].step) >= 2 ** 63 - 1
+                and isinstance(rargs[1], int)):
+            # KNOWN FINDING C20-bitarray-setitem-huge-step: `bitarray[::step] = 0/1` with step <= -(2**63-1) segfaults inside the bitarray C
+            # extension (3.11); bitstring passes the step through (negated under lsb0). Excluded by construction (both signs, int values only).
+            self.excluded_setitem += 1
+            return
         try:
             res = f(*rargs)
             # results are consumed like a user would
@@ -359,6 +366,8 @@ class W:
                 return getattr(copy, op)(target)
             if op == 'delitem_unguarded':     # only used by the committed witness of C20-bitarray-delitem-huge-step
                 return operator.delitem(target, a[0])
+            if op == 'setitem_unguarded':     # only used by the committed witness of C20-bitarray-setitem-huge-step
+                return operator.setitem(target, a[0], a[1])
             if op == 'setitem_list':
                 return operator.setitem(target, a[0], a[1])
             if op in ('add_arr', 'eq_arr'):
@@ -601,8 +610,8 @@ def run(case):
     w.options['bytealigned'] = case['ba']
     for s in case['steps']:
         w.call(s)
-    return {'nt': w.raised > 0 or len(case['steps']) >= 2, 'labels': [s[0] + '.' + s[1] for s in case['steps'][:6]] + (['out-of-domain'] if w.out_of_domain else []) + (['excluded:C20-bitarray-delitem-huge-step'] if w.excluded_known else []),
-            'excluded': {'C20-bitarray-delitem-huge-step': w.excluded_known} if w.excluded_known else {}}
+    return {'nt': w.raised > 0 or len(case['steps']) >= 2, 'labels': [s[0] + '.' + s[1] for s in case['steps'][:6]] + (['out-of-domain'] if w.out_of_domain else []) + (['excluded:C20-bitarray-delitem-huge-step'] if w.excluded_known else []) + (['excluded:C20-bitarray-setitem-huge-step'] if w.excluded_setitem else []),
+            'excluded': {k: v for k, v in (('C20-bitarray-delitem-huge-step', w.excluded_known), ('C20-bitarray-setitem-huge-step', w.excluded_setitem)) if v}}
 
 
 def selftest():
